@@ -10,3 +10,8 @@ pub mod test_logps;
 pub use cpu_math::{CpuLogpFunc, CpuMath, CpuMathError};
 pub use math::{LogpError, Math};
 pub(crate) use util::logaddexp;
+
+#[cfg(nuts_rs_verif)]
+pub mod verif_reexport {
+    pub use super::util::*;
+}
